@@ -83,11 +83,28 @@ OK10(e) ==
                /\ Minimal(SubSeq(b, 2, HdrW(b)))
                /\ b[1] = ControlByte(e.packet)
 
+\* C10: every enum variant that is written as a wire number and every property, in every packet type that may
+\* carry it, went through the encoder (and was therefore validated above) at least once in this run
+CodeTypes == {"Connack", "Puback", "Pubrec", "Pubrel", "Pubcomp", "Suback", "Unsuback", "Disconnect", "Auth"}
+PropSets == {"Connect", "Will", "Connack", "Publish", "Puback", "Pubrec", "Pubrel", "Pubcomp", "Subscribe", "Suback",
+             "Unsubscribe", "Unsuback", "Disconnect", "Auth"}
+CoverageOK(e) ==
+    LET codes == {e.codes[i] : i \in 1..Len(e.codes)}
+        props == {e.props[i] : i \in 1..Len(e.props)}
+    IN  /\ \A t \in CodeTypes : \A n \in Names(RCTable(t)) : <<"v5", t, n>> \in codes
+        /\ \A n \in Names(V3ConnectRC) : <<"v3", "Connack", n>> \in codes
+        /\ \A n \in Names(V3SubRC) : <<"v3", "Suback", n>> \in codes
+        /\ \A n \in Names(RetainHandlingRC) : <<"v5", "RetainHandling", n>> \in codes
+        /\ <<"v3", "Protocol", "V310">> \in codes /\ <<"v3", "Protocol", "V311">> \in codes
+        /\ <<"v5", "Protocol", "V500">> \in codes
+        /\ \A s \in PropSets : \A k \in PropKeys(s) \cup {"user"} : <<s, k>> \in props
+
 Accept(e) ==
     CASE e.ev = "RoundTrip" -> (Prop = "C01" => OK01(e))
       [] e.ev = "Lens"      -> (Prop = "C02" => OK02(e))
       [] e.ev = "LensShape" -> (Prop = "C02" => OK02Shape(e))
       [] e.ev = "Enc"       -> (CASE Prop = "C09" -> OK09(e) [] Prop = "C10" -> OK10(e) [] OTHER -> TRUE)
+      [] e.ev = "Coverage"  -> (Prop = "C10" => CoverageOK(e))
       [] e.ev = "End"       -> l = Len(Rec)
       [] OTHER -> FALSE
 
